@@ -65,17 +65,23 @@ func (fr *Frame) bigCall(st *State, fn *ssa.Function, args []Value) (Value, bool
 	if !isBigIntType(recv.Type()) {
 		return nil, false
 	}
-	ld := func(i int) *Term {
-		p, ok := args[i].(*PtrV)
-		if !ok || p.Obj == nil {
-			unsup("big.Int method %s on a nil or conditional pointer", fn.Name())
+	var ldv func(x Value) *Term
+	ldv = func(x Value) *Term {
+		if iv, isI := x.(*IteV); isI {
+			// a pointer that is one of two cells (e := k, or a scratch integer): read both
+			return F.Ite(iv.C, ldv(iv.A), ldv(iv.B))
 		}
-		t, ok := fr.load(st, args[i]).(*Term)
+		p, ok := x.(*PtrV)
+		if !ok || p.Obj == nil {
+			unsup("big.Int method %s on a nil pointer", fn.Name())
+		}
+		t, ok := fr.load(st, x).(*Term)
 		if !ok {
 			unsup("big.Int cell does not hold an integer")
 		}
 		return t
 	}
+	ld := func(i int) *Term { return ldv(args[i]) }
 	set := func(t *Term) (Value, bool) {
 		fr.store(st, args[0], t, nil)
 		used()
@@ -120,6 +126,11 @@ func (fr *Frame) bigCall(st *State, fn *ssa.Function, args []Value) (Value, bool
 	case "IsUint64":
 		x := ld(0)
 		return ret(F.And(F.Le(F.I64(0), x), F.Lt(x, F.Int(pow2(64)))))
+	case "Uint64": // the low 64 bits of |x|
+		return ret(F.Mod(abs(ld(0)), F.Int(pow2(64))))
+	case "Int64":
+		x := ld(0)
+		return ret(F.WrapS(64, x))
 	case "ModInverse":
 		g, n := ld(1), ld(2)
 		return set(F.App("big.modinv", SInt, g, n))
@@ -153,10 +164,12 @@ func (fr *Frame) bigCall(st *State, fn *ssa.Function, args []Value) (Value, bool
 			ax := abs(x)
 			return F.Mod(F.Div(ax, F.Int(pow2(int(i.K.Int64())))), F.I64(2)), true
 		}
-		return F.App("big.bit", SInt, x, i), true
+		// bit i of |x| = floor(|x| / 2^i) mod 2, with big.hi(e, i) = floor(e / 2^i) (axiomatised by the contracts that use it)
+		return F.Mod(F.App("big.hi", SInt, abs(x), i), F.I64(2)), true
 	case "BitLen":
 		used()
 		r := F.App("big.bitlen", SInt, ld(0))
+		F.SetRange(r, big.NewInt(0), pow2(40)) // a length in bits of an in-memory integer
 		return r, true
 	}
 	return nil, false
